@@ -96,12 +96,12 @@ Designed == <<
    lists), the static part from a fourth *)
 PfxOpts == << <<"a">>, <<"b">>, <<"a", "b">>, <<"b", "a">>, <<"a", "a">>, <<"A">>, <<"c">>, <<"a", "zz">>, <<"odd">>, <<"e">>, <<>>, <<"0x">>, <<"b", "c">> >>
 TxOpts  == <<"fresh", "fresh", "same", "shift", "fewer">>
-BlkOpts == <<"in", "in", "in", "in2", "at", "pre", "fut", "e2", "neg", "max">>
-SigOpts == <<"ok", "ok", "ok", "v27", "other", "wdig", "norec", "recid", "short", "long", "empty", "nonhex">>
-DigOpts == <<"ok", "ok", "ok", "ok", "ok", "short", "empty">>
+BlkOpts == <<"in", "in", "in", "in", "in2", "at", "pre", "fut", "e2", "neg", "max">>
+SigOpts == <<"ok", "ok", "ok", "ok", "ok", "ok", "ok", "v27", "other", "wdig", "norec", "recid", "short", "long", "empty", "nonhex">>
+DigOpts == <<"ok", "ok", "ok", "ok", "ok", "ok", "ok", "ok", "ok", "ok", "short", "empty">>
 ProvOpts == <<"p1", "p1", "p2", "q">>
 CdOpts  == <<"d1", "d1", "d2">>
-InstOpts == <<"ok", "ok", "ok", "ok", "bad">>
+InstOpts == <<"ok", "ok", "ok", "ok", "ok", "ok", "ok", "bad">>
 StaticOpts == <<[kind2 |-> "absent", eon2 |-> "known", faults |-> {}],
                 [kind2 |-> "absent", eon2 |-> "known", faults |-> {"insc"}],
                 [kind2 |-> "foreign", eon2 |-> "known", faults |-> {}],
@@ -145,13 +145,12 @@ ASSUME PrintT(<<"UNIS", ToJson(Universes)>>)
 ASSUME PrintT(<<"CONST", ToJson([k |-> K, t |-> T, lists |-> Lists, sortmode |-> SortMode, ndesigned |-> Len(Designed)])>>)
 
 ----------------------------------------------------------------------------
-Root == [num |-> 0, par |-> -1, evs |-> {}, len |-> 1]
 NoObs == [failed |-> {}]
 Init ==
     /\ ui \in DOMAIN Universes
     /\ ks = KsInit(Universes[ui]) /\ nd = G!NodeInit
     /\ cnt = [k \in DOMAIN Universes[ui].cs |-> 0] /\ fu = 0
-    /\ blk = <<Root>> /\ canon = 1 /\ ep = 0 /\ nsync = 0
+    /\ blk = <<RootBlk>> /\ canon = 1 /\ ep = 0 /\ nsync = 0
     /\ g = GhostInit /\ pre = 0 /\ last = 0
     /\ obs = NoObs /\ hist = <<>>
 
@@ -187,16 +186,7 @@ Eon ==
 
 Env ==
     /\ ep < Len(U.env)
-    /\ LET e == U.env[ep + 1]
-           p == IF e.p = 0 THEN canon ELSE e.p IN
-       CASE e.a = "mine" ->
-              /\ blk' = Append(blk, [num |-> blk[p].num + 1, par |-> p, evs |-> IF e.ev = "" THEN {} ELSE {e.ev}, len |-> 1])
-              /\ canon' = Len(blk) + 1
-         [] e.a = "ext" ->
-              /\ blk' = Append(blk, [num |-> blk[canon].num + e.k, par |-> canon, evs |-> {}, len |-> e.k])
-              /\ canon' = Len(blk) + 1
-         [] e.a = "switch" ->
-              /\ blk' = blk /\ canon' = e.p
+    /\ LET r == EnvApply(blk, canon, U.env[ep + 1]) IN blk' = r.blk /\ canon' = r.canon
     /\ ep' = ep + 1
     /\ obs' = NoObs
     /\ hist' = Append(hist, [a |-> "env", k |-> ep + 1, f |-> "none", at |-> 0, x |-> <<>>])
@@ -228,7 +218,8 @@ Spec == Init /\ [][Next]_vars
 
 (* the code-shaped layer against the property layer *)
 StepOK == [][obs'.failed \subseteq InfoMonitors]_vars
-TypeOK == \A r \in ks.rows : r.eon \in {1, 2}
+(* the named alternative (PRIMEV-1.diff: identities sorted before the trigger): no keyper's own shares are refused *)
+SortedOK == [][SortMode = "sorted" => "P4_Published" \notin obs'.failed]_vars
 
 EmitInv == (~Emit) \/ PrintT(<<"B", ToJson([ui |-> ui, sched |-> hist])>>)
 View == <<ui, ks, nd, cnt, fu, blk, canon, ep, nsync, g, pre, last>>
